@@ -1,6 +1,7 @@
 import LentilVerif.Lemmas.Zernike
 import LentilVerif.Lemmas.ZernikeTables
 import LentilVerif.Lemmas.ZernikeAlg
+import LentilVerif.Lemmas.ZernikeRow
 /-! # C11 — Zernike modes are the Noll-ordered orthonormal polynomials
 
 Property theorems only. Model: `Model/Zernike.lean` (hand-written, tied to `lentil/zernike.py` by the correspondence harness
@@ -82,6 +83,35 @@ example : nollN 11 = 4 ∧ nollM 11 = 0 ∧ nollN 8 = 3 ∧ nollM 8 = 1 ∧ noll
 by the negative `r = j − (n+1)(n+2)/2 − 1`, sign from the parity of j) returns the closed-form `(m, n)` for **every** j ≥ 1 (given
 the row n, which the code finds by a float `sqrt`/`ceil`; the real function is compared for every j ≤ 861 by the correspondence) -/
 theorem code_index_matches (j : Nat) (h1 : 1 ≤ j) : codeIndex j = (nollM j, nollN j) := codeIndex_eq j h1
+
+/-- the row search of `zernike_index`, `n = ⌈(−1 + √(1 + 8j))/2⌉ − 1`, evaluated in exact real arithmetic, is the Noll row -/
+theorem row_search_real (j : ℕ) (hj : 1 ≤ j) :
+    ⌈(-1 + Real.sqrt (1 + 8 * (j : ℝ))) / 2⌉ - 1 = (nollN j : ℤ) := by
+  obtain ⟨hp, e⟩ := nollRow_spec j hj
+  unfold nollN
+  generalize (nollRow j).1 = n at *
+  generalize (nollRow j).2 = p at *
+  have h2 := two_tri n
+  have hjR : (8 : ℝ) * j = 4 * (n : ℝ) * (n + 1) + 8 * p + 8 := by
+    have : 8 * j = 4 * (n * (n + 1)) + 8 * p + 8 := by rw [← h2]; omega
+    have := congrArg (fun x : ℕ => (x : ℝ)) this
+    push_cast at this; linarith
+  have hpR : (p : ℝ) ≤ n := by exact_mod_cast hp
+  have hp0 : (0 : ℝ) ≤ p := Nat.cast_nonneg p
+  have hn0 : (0 : ℝ) ≤ n := Nat.cast_nonneg n
+  have hc : ⌈(-1 + Real.sqrt (1 + 8 * (j : ℝ))) / 2⌉ = (n : ℤ) + 1 := by
+    rw [Int.ceil_eq_iff]
+    push_cast
+    constructor
+    · have : (2 * (n : ℝ) + 1) < Real.sqrt (1 + 8 * (j : ℝ)) := by
+        rw [Real.lt_sqrt (by positivity)]; nlinarith
+      linarith
+    · have : Real.sqrt (1 + 8 * (j : ℝ)) ≤ 2 * (n : ℝ) + 3 := by
+        rw [Real.sqrt_le_iff]; constructor
+        · positivity
+        · nlinarith
+      linarith
+  rw [hc]; ring
 
 /-! ## radial polynomials -/
 
